@@ -135,6 +135,9 @@ def directed(rng):
         # every way a connection ends closes the channel exactly once: also a closing-class Recv error while the server runs
         add('recv-closing-%d' % v, {'recvUnblocks': bool(v % 2)}, [S(call(1)), S(note()), D, dict(a='recvclosing'), D, hret('m1.1'), hret('m2.1'), D])
         add('recv-closing-idle-%d' % v, {'push': bool(v % 2)}, [dict(a='recvclosing'), D, dict(a='stop'), D])
+        # the string "1" and the number 1 are different ids: neither is a duplicate of the other, each is echoed as it was spelled
+        add('string-vs-number-id-%d' % v, {'conc': 3}, [S(call(1)), D, S(call(101)), D, S(call(1), call(101)), D, hret('m1.1'), hret('m2.1'), D, S(call(101), call(1)), D,
+                                                        hret('m4.1', OUTS_ERR[v]), hret('m4.2'), D, dict(a='cancel', id='1'), D])
         # F2/F3: records after Stop
         add('f2-%d' % v, {}, [dict(a='stop'), D, dict(a='send', kind='garbage'), D])
         add('f2e-%d' % v, {}, [dict(a='stop'), D, dict(a='send', kind='empty'), D])
